@@ -57,6 +57,9 @@ def shards(tier, seed):
     for kind in simgw.KINDS:
         out.append({"name": f"{kind}-refusals", "kind": kind, "what": "refusals", "tier": tier, "seed": seed})
         out.append({"name": f"{kind}-fault-storm", "kind": kind, "what": "storm", "tier": tier, "seed": seed})
+        for scb_ in ("ok", "send_on_connected", "slow_connected", "raise"):
+            if not (kind == "actisense" and scb_ == "send_on_connected"):
+                out.append({"name": f"{kind}-reset_at_accept-{scb_}", "kind": kind, "what": "fault", "fault": "reset_at_accept", "scb": scb_, "tier": tier, "seed": seed})
         for fault in ("eof", "reset", "garbage_eof", "write_error", "eof_midpacket", "busy_reply", "garbage_overrun"):
             if kind == "waveshare" and fault in ("eof", "garbage_eof", "eof_midpacket"):
                 continue
@@ -73,7 +76,9 @@ def shards(tier, seed):
             if fault in ("eof", "reset") and kind != "waveshare":
                 out.append({"name": f"{kind}-{fault}-conformance-real-tcp", "kind": kind, "what": "conformance", "fault": fault, "tier": tier, "seed": seed})
             # a status callback that suspends widens every window in which connect() still holds its lock
-            for scb in ("slow", "slow_connected", "slow_disconnected"):
+            for scb in ("slow", "slow_connected", "slow_disconnected", "send_on_connected"):
+                if scb == "send_on_connected" and (kind == "actisense" or fault not in ("reset", "eof", "write_error")):
+                    continue
                 if tier != "quick" or (fault in ("write_error", "reset", "eof") and scb != "slow_disconnected"):
                     out.append({"name": f"{kind}-{fault}-{scb}", "kind": kind, "what": "fault", "fault": fault, "scb": scb, "tier": tier, "seed": seed})
     return out
@@ -144,6 +149,12 @@ def fault_session(kind, fault, step, settle=40.0, scb="ok", second=None, mapping
                 sim.spawn("send", make_send_message(kind))
 
         def on_accept(conn):
+            if fault == "reset_at_accept" and conn.id == 0:
+                # the gateway accepts and drops the link in the same breath (a proxy whose backend is down)
+                info.update(injected=True, inject_step=loop.steps, inject_time=loop.time() - 1000.0, conn_at_fault=0)
+                sim.ev("fault", fault=fault, conn=0)
+                conn.reset(simgw.serial_loss_exception() if kind == "waveshare" else ConnectionResetError(104, "reset by peer"))
+                return
             # every accepted connection delivers one frame tagged with its connection number
             def later():
                 if not conn.lost and not conn.closing:
@@ -169,7 +180,7 @@ def fault_session(kind, fault, step, settle=40.0, scb="ok", second=None, mapping
         await asyncio.sleep(1.0)
         info["elapsed"] = loop.time() - 1000.0
         info["ticks"] = sim.heartbeat_ticks
-        await sim.call("close")
+        await sim.close_guarded()
     sim, stats = simgw.run_session(kind, scenario, status_cb=scb, client_kwargs={"build_network_map": True} if mapping else None, bystander=bystander, cb_style=cb_style)
     return sim, stats, info
 
@@ -180,6 +191,11 @@ def check_recovery(sim, stats, info, acc, kind, fault, step, scb="ok"):
     acc.count("sessions")
     if stats["error"]:
         acc.inconclusive_because(f"simulator: {stats['error']} ({kind} {fault} step {step})")
+        return
+    if sim.close_hung:
+        acc.case((kind, fault, step, scb))
+        acc.count("faults_injected")
+        acc.violation("close-never-returns-after-fault", f"{kind}: after '{fault}' (status callback {scb}) the final close() had not returned 120 virtual s later; statuses {sim.status}", w)
         return
     spins = [e for e in sim.trace if e["k"] == "loop_monopoly"]
     if spins:
@@ -197,6 +213,13 @@ def check_recovery(sim, stats, info, acc, kind, fault, step, scb="ok"):
     after = [e for e in sim.trace if e["s"] >= info["inject_step"]]
     st_after = [(e["t"], e["state"]) for e in after if e["k"] == "status"]
     disc = next((t for t, s in st_after if s == "DISCONNECTED"), None)
+    if fault == "reset_at_accept" and disc is None:
+        # the link died before the client ever reported CONNECTED on it (the serial client talks to the device inside its
+        # connect step): that is a failing connect, retried without a DISCONNECTED in between
+        second = next((a for a in sim.attempts if a.get("conn", 0) >= 1), None)
+        if second is not None and not any(s_ == "CONNECTED" and t_ < second["end"] for t_, s_ in st_after):
+            disc = t_f
+            acc.count("link_lost_inside_the_connect_step")
     deadline = 31.0 if fault == "busy_reply" else 5.0       # the client itself sleeps 30 s on the busy reply
     if disc is None or disc - t_f > deadline:
         acc.violation("no-disconnected-after-fault", f"{kind}: no DISCONNECTED within {deadline:.0f} virtual s of '{fault}' at step {step} (statuses after fault: {st_after})", w)
@@ -252,7 +275,7 @@ def refusal_session(kind, k, exc, delay):
         sim.spawn("connect")
         # long enough for k capped waits
         await asyncio.sleep(20 + 61.0 * k)
-        await sim.call("close")
+        await sim.close_guarded()
     return simgw.run_session(kind, scenario, max_steps=400_000 + 2000 * k)
 
 
@@ -424,7 +447,7 @@ def storm(spec, acc):
                 sim.census.append((len([t for t in asyncio.all_tasks(loop) if not t.done()]),
                                    len([c_ for c_ in sim.conns if not c_.lost and not c_.closing])))
             sim.n_done = len([e for e in sim.trace if e["k"] == "fault"])
-            await sim.call("close")
+            await sim.close_guarded()
         sim, stats = simgw.run_session(kind, scenario, max_steps=600_000)
         acc.count("sessions")
         acc.case((kind, "storm", tuple(plan), tuple(refusals)))
@@ -494,6 +517,8 @@ def run_shard(spec, acc):
         # include the seeding period (sends at +2, +4, +6 virtual s): steps up to the last seeding write
         steady = max([e["s"] for e in sim0.trace if e["k"] == "write"] + [steady]) + 4
     steps = list(range(0, steady + 1))
+    if fault == "reset_at_accept":
+        steps = [10 ** 9 - 1, 10 ** 9 - 2, 10 ** 9 - 3]         # (the fault is tied to the accept, not to a loop step)
     if quick and len(steps) > 40:
         steps = steps[:30] + steps[30::3]
     seconds = ["reset", "eof", "write_error"] if kind != "waveshare" else ["reset", "write_error"]
@@ -506,7 +531,7 @@ def run_shard(spec, acc):
         check_recovery(sim, stats, info, acc, kind, fault, step, scb)
         if by and sim is not None and not stats["error"]:
             simgw.judge_bystander(sim, acc, {"client": kind, "fault": fault, "step": step, "status_cb": scb})
-        if mapping or fault == "busy_reply":
+        if mapping or fault in ("busy_reply", "reset_at_accept"):
             continue
         if not quick or k_ % 4 == 0:
             # the same session with another fault a few seconds after the first recovery
